@@ -141,7 +141,9 @@ def update_forms(ctx, d1):
         if okk:
             txt = reacted[0].value.pretty()
             # extent = X_k * feed[r_k] : uses self._X and a gather of material over self._reactant_index
-            comp = [n for n in ast.walk(reacted[0].stmt.value) if isinstance(n, ast.ListComp)]
+            from ..resolve import resolved, path_defs
+            rv = resolved(reacted[0].stmt.value, path_defs(p, reacted[0]), keep={m})
+            comp = [n for n in ast.walk(rv) if isinstance(n, ast.ListComp)]
             gather = comp and src(comp[0].elt) == '%s[%s]' % (m, comp[0].generators[0].target.id) \
                 and src(comp[0].generators[0].iter) == 'self._reactant_index'
             if not (gather and 'self._X' in txt and reacted[0].value.is_monomial()):
@@ -551,8 +553,8 @@ def feasibility_rule(ctx, d5):
     bad = None
     raised = False
     for p in ps:
-        cs = {src(t): taken for t, taken in p.conds if not isinstance(t, str)}
-        if cs.get('tmo.reaction.CHECK_FEASIBILITY') is not True:
+        from ..pathcond import implied
+        if implied(p.conds, lambda e_: src(e_) == 'tmo.reaction.CHECK_FEASIBILITY') is not True:
             continue
         rc = {}
         for tmap, taken, test in p.rconds:
